@@ -49,7 +49,7 @@ def render_members(members, ind="", stub=False):
     for m in members:
         k = m["k"]
         if k == "func":
-            lines += render_func(m["name"], m["params"], m["ret"], m["doc"], ind, stub)
+            lines += render_func(m["name"], m["params"], m["ret"], m["doc"], ind, stub, decorator=m.get("deco"))
         elif k == "overloads":
             for sig in m["sigs"]:
                 lines += render_func(m["name"], sig["params"], sig["ret"], None, ind, True, decorator="overload")
@@ -57,7 +57,8 @@ def render_members(members, ind="", stub=False):
                 impl = m["impl"]
                 lines += render_func(m["name"], impl["params"], impl["ret"], impl.get("doc"), ind, stub)
         elif k == "class":
-            lines.append(f"{ind}class {m['name']}:")
+            bases = f"({', '.join(m['bases'])})" if m.get("bases") else ""
+            lines.append(f"{ind}class {m['name']}{bases}:")
             body = _doc_lines(m["doc"], ind + "    ") + render_members(m["members"], ind + "    ", stub)
             lines += body or [f"{ind}    pass"]
         elif k == "attr":
